@@ -1,6 +1,7 @@
 package sim
 
 import (
+	"time"
 	"fmt"
 	"strings"
 )
@@ -91,6 +92,42 @@ func C11Scenario() *Scenario {
 			{Name: "chaos", Policy: pol, Steps: 200 + 100*t.Pick(3, "len")},
 			{Name: "drain", Quiet: true, CheckOnBudget: true, MaxSteps: 4000, Do: func(w *World) { b.Left = 0 }, Check: func(w *World) *Violation { return c11Oracle(w, s) }},
 		}
+		if s.Cfg.Parent == ResThing && t.Pick(6, "late-status-subresource") == 5 {
+			// the parent CRD gains its status subresource only later: until then the
+			// CompositeController cannot start (Reconcile fails and is retried), while a
+			// DecoratorController on the same resource is already at work through the shared
+			// clientset. Then the CRD is changed, discovery (2 s refresh) picks it up, and
+			// the composite controller starts: its status writes must use the status
+			// endpoint the resource has *now*.
+			w.Cfg["lateStatusSubresource"] = "true"
+			setThingStatus := func(w *World, on bool) {
+				ResThing.Status = on
+				EditObject(w, ResCRD, "", ResThing.Plural+"."+ResThing.Group, "user", func(o Object) { o["spec"] = crdFor(ResThing)["spec"] })
+			}
+			setThingStatus(w, false)
+			dcfg := &DecoratorCfg{Name: "dcl", Ver: 1, Resources: []DecoratorResourceRule{{Res: ResThing}}}
+			mustCreate(w.Store, ResDecoratorCtl, "", dcfg.Object(), "setup")
+			s.Opts.Decorators = append(s.Opts.Decorators, dcfg)
+			s.Progs["dcl"] = &Program{Sync: func(req Object) Object { return Object{} }}
+			s.Opts.Proc.Discovery = 2 * time.Second
+			w.Stages = append([]Stage{
+				{Name: "before-the-status-subresource", Policy: FairPolicy, Steps: 80},
+				{Name: "status-subresource-added", Policy: FairPolicy, Steps: 40, Do: func(w *World) {
+					setThingStatus(w, true)
+					for i := 0; i < 8; i++ {
+						if r := w.Proc.Resources.Get(ResThing.APIVersion(), ResThing.Plural); r != nil && r.HasSubresource("status") {
+							break
+						}
+						w.SleepHard(1100 * time.Millisecond)
+						for j := 0; j < 40 && !w.Idle(); j++ {
+							w.StepOnce(FairPolicy)
+						}
+					}
+					w.Proc.Reconcile("composite", s.Cfg.Name)
+					w.Probe("c11:status-subresource-added-later")
+				}},
+			}, w.Stages...)
+		}
 	}}
 }
 
@@ -116,6 +153,9 @@ func c11Oracle(w *World, s *Setup) *Violation {
 	for _, sy := range w.Syncs("parent") {
 		if sy.EndStep == 0 {
 			continue // cut short by a crash or still running
+		}
+		if sy.Queue != s.Cfg.QueueName() {
+			continue // (the decorator of the late-status-subresource runs: not the composite controller's sync)
 		}
 		// the hook answer the status comes from: the last sync/finalize answer (non-rolling: the only one)
 		var h *HookRec
